@@ -40,10 +40,26 @@ Qed.
 Lemma create1_val p : val (create1 p) = val p + 1.
 Proof. unfold create1, val. destruct (0 <? ch p); cbn; lia. Qed.
 
+Lemma iter_create1_val n p : val (Nat.iter n create1 p) = val p + Z.of_nat n.
+Proof.
+  induction n as [|n IH]; [cbn; lia|]. change (Nat.iter (S n) create1 p) with (create1 (Nat.iter n create1 p)). rewrite create1_val, IH. lia.
+Qed.
+
+Lemma create1_ok p : 0 <= ch p /\ 0 <= my p -> 0 <= ch (create1 p) /\ 0 <= my (create1 p).
+Proof.
+  intro H. unfold create1. destruct (0 <? ch p) eqn:E; cbn [my ch]; [apply Z.ltb_lt in E|]; lia.
+Qed.
+
+Lemma iter_create1_ok n p : 0 <= ch p /\ 0 <= my p -> 0 <= ch (Nat.iter n create1 p) /\ 0 <= my (Nat.iter n create1 p).
+Proof.
+  intro H. induction n as [|n IH]; [exact H|].
+  change (Nat.iter (S n) create1 p) with (create1 (Nat.iter n create1 p)). now apply create1_ok.
+Qed.
+
 (* ---- conservation: every event the model accepts leaves Q unchanged ---- *)
 Theorem apply_conserves e s s' : apply e s = Some s' -> Q s' = Q s.
 Proof.
-  unfold apply, Q. destruct e as [pid|pid|pid|pid|pid|pid|pid n|pid|pid];
+  unfold apply, Q. destruct e as [pid|pid|pid|pid|pid|pid|pid n|pid|pid n|pid];
     destruct (find pid (procs s)) as [p|] eqn:F; try discriminate.
   - intro H. inversion H; subst; cbn. unfold val; cbn. lia.
   - destruct (Z.eqb (my p) 1) eqn:E; [|discriminate]. apply Z.eqb_eq in E.
@@ -61,6 +77,8 @@ Proof.
     pose proof (release_n_val n p) as R. destruct (release_n n p) as [p' shared]. cbn [fst snd] in R.
     intro H. inversion H; subst; cbn. rewrite (sum_upd _ _ _ _ F). lia.
   - destruct (Z.eqb (C s) 0); [|discriminate]. intro H. now inversion H.
+  - destruct (Z.of_nat n <=? J s); [|discriminate].
+    intro H. inversion H; subst; cbn. rewrite (sum_upd _ _ _ _ F), iter_create1_val. lia.
   - destruct (Z.eqb (my p) 1 && (0 <=? ch p) && (ch p <=? 1) && (0 <? L s)) eqn:E; [|discriminate].
     repeat (apply andb_true_iff in E as [E ?]). apply Z.eqb_eq in E.
     intro HH. inversion HH; subst; cbn. rewrite (sum_del _ _ _ F). unfold val. lia.
@@ -112,7 +130,7 @@ Qed.
 Theorem apply_ok e s s' : ok s -> apply e s = Some s' -> ok s'.
 Proof.
   unfold ok, apply. intros (HT & HC & HJ & HL & HP).
-  destruct e as [pid|pid|pid|pid|pid|pid|pid n|pid|pid];
+  destruct e as [pid|pid|pid|pid|pid|pid|pid n|pid|pid n|pid];
     destruct (find pid (procs s)) as [p|] eqn:F; try discriminate;
     try pose proof (procs_ok_find _ _ _ HP F) as Hp.
   - intro H. inversion H; subst; cbn [T C procs J L procs_ok my ch]. repeat split; try lia. exact HP.
@@ -137,6 +155,9 @@ Proof.
     intro H. inversion H; subst; unfold set_procs; cbn [T C procs J L procs_ok]. repeat split; try lia.
     apply procs_ok_upd; [exact HP|lia].
   - destruct (Z.eqb (C s) 0); [|discriminate]. intro H. inversion H; subst. auto.
+  - destruct (Z.of_nat n <=? J s) eqn:E; [|discriminate]. apply Z.leb_le in E.
+    intro H. inversion H; subst; unfold set_procs; cbn [T C procs J L procs_ok]. repeat split; try lia.
+    apply procs_ok_upd; [exact HP|]. now apply iter_create1_ok.
   - destruct (Z.eqb (my p) 1 && (0 <=? ch p) && (ch p <=? 1) && (0 <? L s)) eqn:E; [|discriminate].
     repeat (apply andb_true_iff in E as [E ?]).
     match goal with X : (0 <? L s) = true |- _ => apply Z.ltb_lt in X end.
